@@ -250,7 +250,7 @@ READ_TARGETS = [
 )
 def u_read(W, sk):
     D = mk_dims(W, sk["x"])
-    x = W.array("x", [D[l] for l in sk["x"]])
+    x = W.array("x", [D[l] for l in sk["x"]], int_ok=True)
     X = SL.lab(W, x)
     K = Key(W, D, sk["x"], sk["pat"], sk["form"])
     snaps = SL.snapshot(W, [x])
